@@ -438,6 +438,8 @@ theorem rerunIn_spec : ∀ (v : View) (t : RState), GoodP P0 v t → v.wf K = tr
   | «show» c a b _ _ => intro t _ _ hc; simp [View.core] at hc
   | scope sid d kid _ => intro t _ _ hc; simp [View.core] at hc
   | forRows en sel lists row _ => intro t _ _ hc; simp [View.core] at hc
+  | eb kid _ => intro t _ _ hc; simp [View.core] at hc
+  | res c x => intro t _ _ hc; simp [View.core] at hc
   | forKeyed sel lists =>
     intro t hg hw _ hnd
     cases t with
